@@ -37,6 +37,14 @@ fn state_probes(w: &World, cx: &mut Ctx) {
     }
     if m.ep.is_some() {
         cx.hit("probe_ep_flag_set");
+        if ch != 0 {
+            let pawn_sq = (if m.stm == WHITE { 4 } else { 3 }) * 8 + m.ep.unwrap() as u64;
+            if m.checkers() & !(1u64 << pawn_sq) != 0 {
+                cx.hit("probe_ep_state_with_discovered_check");
+            } else {
+                cx.hit("probe_ep_state_checked_by_pushed_pawn");
+            }
+        }
         if m.legal_ep_file().is_some() {
             cx.hit("probe_legal_ep_capture_available");
         } else {
